@@ -1,0 +1,31 @@
+//go:build verif
+
+package sqlite
+
+import (
+	"context"
+	"database/sql"
+
+	"github.com/high-moctane/mocrelay"
+)
+
+// Exported aliases of the unexported storage functions, for the verification
+// harness only (build tag verif). Nothing else is compiled differently.
+
+func VerifInsertEvents(ctx context.Context, db *sql.DB, seed uint32, events []*mocrelay.Event) error {
+	return insertEvents(ctx, db, seed, events)
+}
+
+func VerifQueryEvent(
+	ctx context.Context,
+	db *sql.DB,
+	seed uint32,
+	fs []*mocrelay.ReqFilter,
+	maxLimit uint,
+) ([]*mocrelay.Event, error) {
+	return queryEvent(ctx, db, seed, fs, maxLimit)
+}
+
+func VerifSetOrLoadXXHashSeed(ctx context.Context, db *sql.DB) (uint32, error) {
+	return setOrLoadXXHashSeed(ctx, db)
+}
